@@ -190,6 +190,8 @@ def table_row(sl):
     raw_b = b
     if bool(raw_b != 0):
         P = (c - b) / b * 100
+        observe("a neutral percentage means that the relative difference (contender - baseline) / baseline really is below the printed precision - "
+                "for negative baselines too", implies(pcol == "neutral", s_and(P < 0.01, P > -0.01)))
         observe("percentage that prints as 0.00% is neutral and unsigned",
                 implies(s_and(P < 0.005, P > -0.005), pcol == "neutral" and "+" not in strip(row[6])))
         if bool(raw_b > 0):
